@@ -45,6 +45,8 @@ func TestRaceStress(t *testing.T) {
 			raceKV(t, rng)
 		case "C15":
 			raceListener(t, rng)
+		case "C17":
+			raceSplit(t, rng)
 		default:
 			t.Fatalf("no race stress for %s", prop)
 		}
@@ -105,19 +107,94 @@ func raceMux(t *testing.T, rng *mathrand.Rand) {
 func raceKV(t *testing.T, rng *mathrand.Rand) {
 	st, _ := inmem.New(context.Background())
 	var wg sync.WaitGroup
+	var private []kvIn
+	start := make(chan struct{})
 	n := 8 + rng.Intn(24)
 	for i := 0; i < n; i++ {
 		wg.Add(1)
 		r2 := mathrand.New(mathrand.NewSource(rng.Int63()))
+		// a load-independent fact: a Store that was acknowledged, of a key nobody else touches, is there afterwards. The
+		// private stores come first so that they race on the first use of their type on a fresh back end.
+		mine := kvIn{Op: "store", Type: kvTypes[r2.Intn(4)], ID: fmt.Sprintf("private-%d", i), Val: fmt.Sprintf("mine-%d", i)}
+		private = append(private, mine)
 		go func() {
 			defer wg.Done()
+			<-start
+			if out := kvApply(st, mine); out.Err {
+				fmt.Printf("KV-VIOLATION store of %s/%s failed on the in-memory back end\n", mine.Type, mine.ID)
+				t.Fail()
+			}
 			for j := 0; j < 50; j++ {
 				in := kvIn{Type: kvTypes[r2.Intn(4)], ID: kvIDs[r2.Intn(3)], Op: []string{"store", "load", "remove", "list"}[r2.Intn(4)], Val: fmt.Sprint(j)}
 				kvApply(st, in)
 			}
 		}()
 	}
+	close(start)
 	wg.Wait()
+	for _, m := range private {
+		if out := kvApply(st, kvIn{Op: "load", Type: m.Type, ID: m.ID}); out.Err || out.NotFound || out.Val != m.Val {
+			fmt.Printf("KV-VIOLATION an acknowledged store of %s/%s=%s made while %d goroutines used the in-memory back end is not there afterwards: load returned %+v\n", m.Type, m.ID, m.Val, n, out)
+			t.Fail()
+		}
+		if kvListable(m.Type) {
+			if out := kvApply(st, kvIn{Op: "list", Type: m.Type}); out.Err || !strings.Contains(","+out.List+",", ","+m.ID+",") {
+				fmt.Printf("KV-VIOLATION %s/%s was stored and acknowledged but List does not show it (%s)\n", m.Type, m.ID, out.List)
+				t.Fail()
+			}
+		}
+	}
+}
+
+// raceSplit: sub-listeners are registered from several goroutines at once (applications do that at start-up). A fact that
+// load cannot disturb: whoever asks for a name gets the same sub-listener every time, during and after the rush.
+func raceSplit(t *testing.T, rng *mathrand.Rand) {
+	ctx := context.Background()
+	st, _ := inmem.New(ctx)
+	base, err := net.Listen("tcp", "127.0.0.1:0")
+	if err != nil {
+		t.Skipf("loopback not available: %v", err)
+	}
+	defer base.Close()
+	il, err := protocol.NewInterceptingListener(&protocol.InterceptingListenerConfiguration{Context: ctx, Storage: st, BaseListener: base})
+	if err != nil {
+		t.Fatal(err)
+	}
+	sl, err := nodenet.NewSplitListener(il)
+	if err != nil {
+		t.Fatal(err)
+	}
+	names := []string{"alpha", "beta", "gamma", "delta", nodenet.AuthenticatedNonSpecificNextProto, nodenet.UnauthenticatedNextProto}
+	n := 4 + rng.Intn(12)
+	got := make([]net.Listener, n)
+	asked := make([]string, n)
+	var wg sync.WaitGroup
+	start := make(chan struct{})
+	for i := 0; i < n; i++ {
+		asked[i] = names[rng.Intn(len(names))]
+		wg.Add(1)
+		go func() {
+			defer wg.Done()
+			<-start
+			l, err := sl.GetListener(asked[i])
+			if err == nil {
+				got[i] = l
+			}
+		}()
+	}
+	close(start)
+	wg.Wait()
+	for i := 0; i < n; i++ {
+		if got[i] == nil {
+			continue
+		}
+		again, err := sl.GetListener(asked[i])
+		if err != nil || again != got[i] {
+			fmt.Printf("SPLIT-VIOLATION the sub-listener handed out for %q during concurrent registration is not the one registered under that name afterwards (err=%v): connections for %q would never reach it\n", asked[i], err, asked[i])
+			t.Fail()
+		}
+	}
+	il.Close()
 }
 
 func raceListener(t *testing.T, rng *mathrand.Rand) {
